@@ -342,3 +342,26 @@ Example C02_gen_nonvacuous :
   Prim2SF (g_east x 0 35 0 0 (of_Z x)) = Prim2SF 180%float /\
   Ztrunc_f (g_lonIndex (g_centre_lon x 0 35 f 35) 0 35) = Some x /\ Ztrunc_f (g_vIndex (g_centre_alt x 0 35 f 35) 35) = Some f.
 Proof. vm_compute. repeat split; reflexivity. Qed.
+
+(* ---- the centre as a whole over the regenerated code (theories/GenC02.v): the model of getCenterPointOnVoxelOffset that the entries run is
+   the three regenerated midpoint expressions applied to the extreme coordinates of the eight vertices, and each — the LATITUDE included —
+   is the float (max + min) / 2. The scan for the extremes (a range loop) is not regenerated. ---- *)
+Theorem C02_gen_centre_is_the_generated_midpoints_of_the_extremes : forall ms ma h x y alt res,
+  centre ms ma h x y alt res =
+  match vertices ms ma h x y alt res with
+  | p0 :: _ =>
+      let ps := vertices ms ma h x y alt res in
+      let lons := map plon ps in let lats := map plat ps in let alts := map palt ps in
+      pt_of (GeneratedF.getCenterPointOnVoxelOffset_centerLon x y h alt res (fmax_list lons (plon p0)) (fmin_list lons (plon p0)))
+            (GeneratedF.getCenterPointOnVoxelOffset_centerLat x y h alt res (fmax_list lats (plat p0)) (fmin_list lats (plat p0)))
+            (GeneratedF.getCenterPointOnVoxelOffset_centerAlt x y h alt res (fmax_list alts (palt p0)) (fmin_list alts (palt p0)))
+  | [] => zero_point
+  end.
+Proof. exact gen_centre_is_generated_midpoints. Qed.
+Print Assumptions C02_gen_centre_is_the_generated_midpoints_of_the_extremes.
+Theorem C02_gen_centre_coordinates_are_float_midpoints : forall x y h alt res (mx mn : pfloat),
+  GeneratedF.getCenterPointOnVoxelOffset_centerLon x y h alt res mx mn = ((mx + mn) / 2)%float /\
+  GeneratedF.getCenterPointOnVoxelOffset_centerLat x y h alt res mx mn = ((mx + mn) / 2)%float /\
+  GeneratedF.getCenterPointOnVoxelOffset_centerAlt x y h alt res mx mn = ((mx + mn) / 2)%float.
+Proof. exact gen_centre_coordinates_are_float_midpoints. Qed.
+Print Assumptions C02_gen_centre_coordinates_are_float_midpoints.
